@@ -214,9 +214,7 @@ def broken_rules(doc):
             out.append("type-or-empty:variable-value")
         seen.append(k)
     labels = env.get("labels", {})
-    if isinstance(labels, dict):
-        seen.extend(labels.keys())
-    elif "labels" in env:
+    if not isinstance(labels, dict) and "labels" in env:
         out.append("type:env.labels")
     deps = env.get("dependencies", {})
     if not isinstance(deps, dict):
@@ -244,7 +242,12 @@ def broken_rules(doc):
             if isinstance(it.get("name"), str):
                 seen.append(it["name"])
     if len(set(seen)) != len(seen):
-        out.append("duplicate-variable-or-dependency-name")
+        out.append("duplicate-variable-or-dependency-name")      # the validator's own rule
+    elif isinstance(labels, dict) and (set(labels) & set(seen)):
+        out.append("duplicate-label-name")      # a label named like a variable or dependency: refused
+        # when the environment is built (the validator does not look at labels)
+    if isinstance(labels, dict):
+        seen.extend(labels.keys())
     if "SPECROOT" in seen:
         out.append("reserved-variable-name")        # maestro defines $(SPECROOT) itself
     if isinstance(labels, dict):
@@ -263,7 +266,7 @@ def broken_rules(doc):
     return out
 
 
-LATE_RULES = {"undefined-dependency", "duplicate-variable-or-dependency-name", "reserved-variable-name",
+LATE_RULES = {"undefined-dependency", "duplicate-label-name", "reserved-variable-name",
               "empty:label", "empty:source", "type:env.sources", "type:env.labels"}
 
 
